@@ -32,6 +32,7 @@ SKELETONS = {
     "unreachable_block": (3, [(0, 1, None)], 0, 1),
     "loopexit2": (5, [(0, 1, None), (1, 2, ("c", 0)), (1, 4, ("n", 0)), (2, 1, ("c", 1)), (2, 3, ("n", 1))], 0, 4),
 }
+SKELETONS["exitloop"] = (2, [(0, 1, None), (1, 1, ("c", 0))], 0, 1)
 SKELETONS["longarm_a"] = (6, [(0, 1, ("c", 0)), (0, 4, ("n", 0)), (1, 2, None), (2, 3, None), (3, 5, None), (4, 5, None)], 0, 5)
 SKELETONS["longarm_b"] = (6, [(0, 1, ("c", 0)), (0, 2, ("n", 0)), (1, 5, None), (2, 3, None), (3, 4, None), (4, 5, None)], 0, 5)
 SKELETONS["loop_or_block"] = (6, [(0, 1, ("c", 0)), (0, 2, ("n", 0)), (1, 5, None), (2, 3, None), (3, 4, ("c", 1)), (3, 5, ("n", 1)), (4, 3, None)], 0, 5)
@@ -242,7 +243,7 @@ def add_holes(f, rnd):
 
 def corpus(seed, count, profile="mixed", widths=(32, 8), sp=None, skeletons=None, extra=None):
     rnd = random.Random(seed)
-    names = skeletons or ([k for k in SKELETONS if not k.startswith("unreachable")] + ["random:5", "random:6", "random:7", "random:8", "random:6", "random:7"])
+    names = skeletons or ([k for k in SKELETONS if not k.startswith("unreachable") and k != "exitloop"] + ["random:5", "random:6", "random:7", "random:8", "random:6", "random:7"])
     out = []
     for i in range(count):
         g = Gen(rnd, profile, widths, sp)
